@@ -147,6 +147,7 @@ class VCase:
         else:
             o = rfc7797.deserialize_json(value, key, **kw)
         members = []
+        self.merged = [dict(m.headers()) for m in o.members]
         for m in o.members:
             d = {}
             if m.protected is not None:
@@ -309,7 +310,8 @@ def valid_cases(ctx, algs=None, payloads=None, kinds=("compact", "flat", "genera
             for kind in kinds:
                 payload = rng.choice(payloads or PAYLOADS)
                 style = rng.choice(spell_styles)
-                out.append(build_valid(rng, alg, kn, priv, kind, payload, style))
+                extra = rng.choice([None, None, {"cty": "invoice+json"}, {"typ": "JOSE", "kid": "billing-1"}])
+                out.append(build_valid(rng, alg, kn, priv, kind, payload, style, extra))
     return out
 
 
@@ -545,6 +547,12 @@ def tamper(case: VCase, rng, others):
         nh["alg"] = "none"
         mkj(with_first(protected=b64u(json.dumps(nh).encode()).decode(), signature=""), "alg-none-downgrade")
         mkj(with_first(protected=None, header=prot), "strip-protected-into-unprotected")
+        # an unprotected member of the same name as a protected one (added after signing) must not shadow it
+        for name, val in prot.items():
+            if name in ("b64", "crit"):
+                continue
+            other = "ES384" if name == "alg" and val != "ES384" else (val + "-shadow" if isinstance(val, str) else "shadow")
+            mkj(with_first(header={name: other}), f"shadow-protected-{name}")
         out.append(VCase(k, v, substitute_key(case, rng), case.reg, None, "key-substitution", case.meta))
     return out
 
@@ -602,6 +610,16 @@ def run_verify_cases(ctx, suite, cases, check_c01=True, expect=None, prop=None):
             elif payload != impl[1][0] or hdrs != impl[1][1]:
                 report(ctx, prop or "C01", f"returned payload/header differ from the signed ones ({c.note})", c, impl,
                        extra={"expected_payload": repr(payload), "expected_headers": repr(hdrs)})
+            elif c.kind not in ("compact", "c7797") and getattr(c, "merged", None) is not None:
+                # headers(): the merged view the caller reads - integrity-protected members must win over unprotected ones
+                want = []
+                for mref in hdrs:
+                    mm = dict(mref.get("header") or {})
+                    mm.update(mref.get("protected") or {})
+                    want.append(mm)
+                if c.merged != want:
+                    report(ctx, prop or "C01", f"headers() of a verified object reports unsigned values for signed members ({c.note})", c, impl,
+                           extra={"merged_returned": repr(c.merged), "merged_expected": repr(want)})
         ex = getattr(c, "expect", None) or expect
         if ex is not None:
             msg = ex(c, impl)
